@@ -159,43 +159,35 @@ theorem tokText_number (k : Kind) (raw : Bytes) (hk : k = .int ∨ k = .float) (
 
 /-! ### strings -/
 
-/-- `readToken` on `gqlQuote bs ++ rest` (bs well-formed UTF-8) returns the String token with value
-    `bs` and the remaining input `rest`, unless the text is mistaken for the start of a block string
-    (empty value followed by a quote). -/
-theorem readToken_gqlQuote (cps : List Nat) (hs : ∀ r ∈ cps, IsScalar r) (rest : Bytes) (c : Cur)
-    (hblk : cps ≠ [] ∨ rest.head? ≠ some 34) :
-    ∃ t c', readToken (gqlQuote (utf8Encode cps) ++ rest) c = .tok t rest c' ∧
-      t.kind = .string ∧ t.value = utf8Encode cps := by
-  have hws : ws (34 :: (gqlQuoteBody (utf8Encode cps) ++ 34 :: rest)) c
-      = (34 :: (gqlQuoteBody (utf8Encode cps) ++ 34 :: rest), c) := by
+/-- `readToken` on `gqlQuote bs ++ rest`, for ARBITRARY bytes `bs`, returns the String token with
+    value `bs` and the remaining input `rest`, unless the text is mistaken for the start of a block
+    string (empty value followed by a quote). -/
+theorem readToken_gqlQuote_bytes (bs : Bytes) (rest : Bytes) (c : Cur)
+    (hblk : bs ≠ [] ∨ rest.head? ≠ some 34) :
+    ∃ t c', readToken (gqlQuote bs ++ rest) c = .tok t rest c' ∧
+      t.kind = .string ∧ t.value = bs := by
+  have hws : ws (34 :: (gqlQuoteBody bs ++ 34 :: rest)) c
+      = (34 :: (gqlQuoteBody bs ++ 34 :: rest), c) := by
     rw [ws.eq_def]; simp
-  have hnb : ∀ tl', gqlQuoteBody (utf8Encode cps) ++ 34 :: rest ≠ 34 :: 34 :: tl' := by
+  have hnb : ∀ tl', gqlQuoteBody bs ++ 34 :: rest ≠ 34 :: 34 :: tl' := by
     intro tl' h
-    cases cps with
+    cases bs with
     | nil =>
-      simp [utf8Encode, gqlQuoteBody] at h
+      simp [gqlQuoteBody] at h
       rcases hblk with h' | h'
       · exact h' rfl
       · cases rest with
         | nil => simp at h
         | cons x xs => simp at h h'; exact h' h.1
-    | cons r cps =>
-      have hr := hs r (by simp)
-      have hp := encodeRune_length_pos r
-      have hE : utf8Encode (r :: cps) = encodeRune r ++ utf8Encode cps := by simp [utf8Encode]
-      rw [hE] at h
-      cases he : encodeRune r with
-      | nil => rw [he] at hp; simp at hp
-      | cons b bs =>
-        rw [he] at h
-        simp only [List.cons_append, gqlQuoteBody] at h
-        obtain ⟨x, xs, hg, hx⟩ := gqlEscapeByte_head b
-        rw [hg] at h
-        simp at h
-        exact hx h.1
-  obtain ⟨t, c', h1, h2, h3⟩ := rsl_gqlQuoteBody c rest cps hs (c.adv 1 1) [] false
+    | cons b xs =>
+      simp only [gqlQuoteBody] at h
+      obtain ⟨x, xs', hg, hx⟩ := gqlEscapeByte_head b
+      rw [hg] at h
+      simp at h
+      exact hx h.1
+  obtain ⟨t, c', h1, h2, h3⟩ := rsl_gqlQuoteBody_bytes c rest _ bs (Nat.le_refl _) (c.adv 1 1) [] false
   refine ⟨t, c', ?_, h2, by simpa using h3⟩
-  have hq : gqlQuote (utf8Encode cps) ++ rest = 34 :: (gqlQuoteBody (utf8Encode cps) ++ 34 :: rest) := by
+  have hq : gqlQuote bs ++ rest = 34 :: (gqlQuoteBody bs ++ 34 :: rest) := by
     simp [gqlQuote]
   rw [hq]
   unfold readToken
@@ -203,24 +195,47 @@ theorem readToken_gqlQuote (cps : List Nat) (hs : ∀ r ∈ cps, IsScalar r) (re
   rw [readTokenBody_string _ c (fun body e => hnb body e)]
   exact h1
 
+/-- `readToken` on `gqlQuote bs ++ rest` (bs well-formed UTF-8) returns the String token with value
+    `bs` and the remaining input `rest`, unless the text is mistaken for the start of a block string
+    (empty value followed by a quote).  Special case of `readToken_gqlQuote_bytes`. -/
+theorem readToken_gqlQuote (cps : List Nat) (hs : ∀ r ∈ cps, IsScalar r) (rest : Bytes) (c : Cur)
+    (hblk : cps ≠ [] ∨ rest.head? ≠ some 34) :
+    ∃ t c', readToken (gqlQuote (utf8Encode cps) ++ rest) c = .tok t rest c' ∧
+      t.kind = .string ∧ t.value = utf8Encode cps := by
+  refine readToken_gqlQuote_bytes (utf8Encode cps) rest c ?_
+  rcases hblk with h | h
+  · left
+    intro h0
+    cases cps with
+    | nil => exact h rfl
+    | cons r t =>
+      have hp := encodeRune_length_pos r
+      have := congrArg List.length h0
+      simp only [utf8Encode, List.flatMap_cons, List.length_append, List.length_nil] at this
+      omega
+  · exact Or.inr h
+
 /-- a string value: well-formed UTF-8 (decidable) -/
 def strRaw (raw : Bytes) : Bool := (Utf8.decode raw).isSome
 
-theorem tokText_string (raw : Bytes) (h : strRaw raw = true) :
+/-- the quoted form of ANY byte string is the token text of the String token with that value -/
+theorem tokText_string_bytes (raw : Bytes) :
     TokText (quoteString raw) { kind := .string, value := raw } true := by
   intro post hf c
-  obtain ⟨cps, hs, e⟩ := (Utf8.valid_iff raw).1 h
-  have hblk : cps ≠ [] ∨ post.head? ≠ some 34 := by
+  have hblk : raw ≠ [] ∨ post.head? ≠ some 34 := by
     right
     cases post with
     | nil => simp
     | cons x t =>
       have := sepByte_cases (hf rfl x t rfl)
       simp; omega
-  obtain ⟨t, c', h1, h2, h3⟩ := readToken_gqlQuote cps hs post c hblk
-  rw [e] at h1 h3
+  obtain ⟨t, c', h1, h2, h3⟩ := readToken_gqlQuote_bytes raw post c hblk
   refine ⟨t, c', h1, ?_, ?_⟩
   · cases t; simp_all [Tok.ofToken]
   · simp [significant, h2]
+
+theorem tokText_string (raw : Bytes) (_h : strRaw raw = true) :
+    TokText (quoteString raw) { kind := .string, value := raw } true :=
+  tokText_string_bytes raw
 
 end Gql.Format
